@@ -355,7 +355,7 @@ def pipeline_extra(res):
         out.append({"line": c06_ops.request(ai, art.npu_ops, rec.ops, art.words, tag="c06p"),
                     "rerun_same": list(words2) == list(art.words), "nops": len(art.npu_ops),
                     # scheduled operation -> NpuOperation (harness/hl2npu.py): descriptor captured before the conversion
-                    "hl": hl2npu.lines(art, rec.ops)})
+                    "hl": hl2npu.lines(art, rec.ops), "hl_limits": hl2npu.limits(art)})
     hl2npu.clear()
     return out
 
